@@ -15,7 +15,12 @@ import (
 )
 
 // Root is the /verif directory (overridable for tests).
-var Root = "/verif"
+var Root = func() string {
+	if r := os.Getenv("VERIF_ROOT"); r != "" {
+		return r
+	}
+	return "/verif"
+}()
 
 // FileSpec / ReplaySpec make a replay self-contained: catalogue id + the exact file texts.
 type FileSpec struct {
